@@ -48,6 +48,10 @@ for d in sorted(glob.glob(os.path.join(ROOT, "seeded", "*"))):
     out.append(f"| {name} | {ver.get('property', meta.get('property', ''))} | {what[:420]} | {'yes' if ver.get('detected') else ('superseded by fix ' + ver['superseded_by_fix'] if ver.get('superseded_by_fix') else ('STALE' if ver.get('stale') else 'NO'))} | "
                f"{'yes' if ver.get('concrete_replay') else 'no'} | {how} |")
 out.append("")
+out.append("### 8.6 Per-property as-built summaries (what is proved, under which hypotheses, what is only tied or probed)\n")
+out.append("Each summary is written by the engineer owning the property (`design/Cxx.md`) and included verbatim.\n")
+for f in sorted(glob.glob(os.path.join(ROOT, "design", "C[0-9][0-9].md"))):
+    out.append(open(f, encoding="utf-8").read().rstrip() + "\n")
 txt = "\n".join(out)
 p = os.path.join(ROOT, "DESIGN.md")
 s = open(p).read()
